@@ -372,6 +372,19 @@ Definition set_bind4 (r : sess) (a lease : N) : sess :=
      s_v4 := Some a; s_v6 := s_v6 r; s_pd := s_pd r; s_l4 := lease; s_b4 := Some 0%Z; s_l6 := s_l6 r;
      s_b6 := s_b6 r; s_stamp := None; s_swif := s_swif r |}.
 
+(* the dataplane entry that carries a given sw_if_index (the southbound addresses the binding by interface index; after
+   a restart with a failed add the in-memory index can be stale and belong to nobody — or to another session) *)
+Fixpoint dp_find_swif (sw : N) (d : list (N * dpe)) : option N :=
+  match d with
+  | [] => None
+  | (k, e) :: r => if d_swif e =? sw then Some k else dp_find_swif sw r
+  end.
+Definition dp_set4 (k a : N) (d : list (N * dpe)) : list (N * dpe) :=
+  match aget k d with
+  | Some e => aput k {| d_swif := d_swif e; d_v4 := Some a; d_v6 := d_v6 e; d_pd := d_pd e |} d
+  | None => d
+  end.
+
 Definition upd_live (s : st) (i : N) (r : sess) (ls : list (N * N)) (d : list (N * dpe)) : st :=
   {| store := store s; pend := pend s; tick := tick s; applied := applied s; live := aput i r (live s);
      leases := ls; dp := d; dpnext := dpnext s; released := released s; used := used s; poison := poison s;
@@ -383,11 +396,12 @@ Definition do_bind4 (c : cfg) (s : st) (i lease : N) (o : option N) : option (st
     let go (a : N) (ls : list (N * N)) (fresh : bool) :=
       let r2 := set_bind4 r a lease in
       let hasdp := negb (s_swif r =? 0) in
-      let s1 := upd_live s i r2 ls (if hasdp then dp_prog i r2 (dp s) else dp s) in
+      let tgt := if hasdp then dp_find_swif (s_swif r) (dp s) else None in
+      let s1 := upd_live s i r2 ls (match tgt with Some k => dp_set4 k a (dp s) | None => dp s end) in
       let t := tick s1 in
       Some (fst (do_ck s1 i),
             OBind (if fresh then Some a else None) t
-              ((if hasdp then [if amem i (dp s) then T4 i a else T4Q (s_swif r); TPROG] else []) ++ [TLA i])) in
+              ((if hasdp then [match tgt with Some k => T4 k a | None => T4Q (s_swif r) end; TPROG] else []) ++ [TLA i])) in
     match s_v4 r with
     | Some a => go a (leases s) false                               (* renew *)
     | None =>
